@@ -1464,7 +1464,10 @@ class GroupBy:
 
             arr_len = lengths.pop()
 
-            could_be_non_reduce = arr_len == (len(self) if mask is None else mask.sum())
+            # rows with a null key belong to no group and are not passed to func
+            could_be_non_reduce = arr_len == (
+                len(indexer) if mask is None else mask[indexer].sum()
+            )
             could_be_fixed_length = arr_len % len(group_index) == 0
             if could_be_non_reduce and could_be_fixed_length:
                 # very unlikely for large data
